@@ -137,11 +137,14 @@ class CriterionProxy:
         return loss
 
 
-def run_trainer(sg, E, NB, NV, NT, evaluator_mode, callbacks, seed, do_fit=True, do_test=True, batch=4, ambient=None):
+def run_trainer(sg, E, NB, NV, NT, evaluator_mode, callbacks, seed, do_fit=True, do_test=True, batch=4, ambient=None, loader_kind="list"):
     """Runs a real Trainer on a small model with BatchNorm and Dropout. Returns (trace, info).
     ambient: None | "test_in_no_grad" (the caller runs test() inside a no_grad block of its own: event `ambient`
     before and after) | "ctor_in_no_grad" (the Trainer object is built and compiled inside a no_grad block that is
-    left before fit(): no event - building a Trainer is not an action of the specification)."""
+    left before fit(): no event - building a Trainer is not an action of the specification).
+    loader_kind: "list" (lists of batches) | "dataloader" (the library's DataLoader over arrays) | "dataloader_peeked"
+    (the same, after the caller looked at a sample batch of every loader with next(iter(loader)) and left a `for`
+    loop over the training loader early): len(train_loader) batches per epoch all the same."""
     import pkbar
     nn = sg.nn
     from synapgrad.nn.utils.train import Trainer, Evaluator
@@ -160,7 +163,26 @@ def run_trainer(sg, E, NB, NV, NT, evaluator_mode, callbacks, seed, do_fit=True,
             y = sg.Tensor(rng.randint(0, K, size=(batch,)).astype(np.int64))
             out.append((x, y))
         return out
-    train_loader, val_loader, test_loader = loader(NB), (loader(NV) if NV > 0 else None), loader(NT)
+    if loader_kind == "list":
+        train_loader, val_loader, test_loader = loader(NB), (loader(NV) if NV > 0 else None), loader(NT)
+    else:
+        from synapgrad.nn.utils.data import DataLoader, DataLoaderCallback
+
+        class ToTensor(DataLoaderCallback):
+            def __call__(self, data_loader, X_batch, y_batch):
+                return sg.Tensor(X_batch), sg.Tensor(y_batch)
+
+        def dl(n):
+            m = n * batch + (batch - 1)          # a last, incomplete batch is dropped: len() == n
+            return DataLoader(rng.randn(m, 3).astype(np.float32), rng.randint(0, K, size=(m,)).astype(np.int64), batch, transform=ToTensor())
+        train_loader, val_loader, test_loader = dl(NB), (dl(NV) if NV > 0 else None), dl(NT)
+        assert len(train_loader) == NB and len(test_loader) == NT
+        if loader_kind == "dataloader_peeked":
+            for ld in (train_loader, val_loader, test_loader):
+                if ld is not None:
+                    next(iter(ld))
+            for _ in train_loader:
+                break
     opt = sg.optim.SGD(model.parameters(), lr=0.1)
     crit = nn.CrossEntropyLoss()
     import contextlib
@@ -170,7 +192,7 @@ def run_trainer(sg, E, NB, NV, NT, evaluator_mode, callbacks, seed, do_fit=True,
         trainer.compile(CriterionProxy(crit, rec), OptProxy(opt, rec), evaluator)
     rec.trainer = trainer
     trace = dict(cfg=dict(E=E, NB=NB, NV=NV, NT=NT), tr0=bool(model.training), fit=bool(do_fit), ev=rec.ev)
-    info = dict(E=E, NB=NB, NV=NV, NT=NT, evaluator=bool(evaluator_mode), callbacks=callbacks, seed=seed, ambient=ambient, do_fit=do_fit)
+    info = dict(E=E, NB=NB, NV=NV, NT=NT, evaluator=bool(evaluator_mode), callbacks=callbacks, seed=seed, ambient=ambient, do_fit=do_fit, loader_kind=loader_kind)
 
     # hooks that live outside the repository: Tensor.backward wrapper and the progress bar
     orig_bw = sg.Tensor.backward
